@@ -331,7 +331,7 @@ fn single_case(st: &mut Stats, order: u64, sub: &str, full: bool, ty: usize, dt:
 fn run_single(ctx: &Ctx) -> Stats {
     let full = !ctx.quick();
     let types = grid(full);
-    let items = single_items(&types, 3);
+    let items = single_items(&types, ctx.pick(3, 4));
     let layouts = all_layouts(&[0, 1]);
     let o = Opts::default();
     let nl = layouts.len() as u64;
@@ -356,7 +356,7 @@ fn run_options(ctx: &Ctx) -> Stats {
     let full = !ctx.quick();
     let types = grid(full);
     let filt = ctx.extra_args.iter().find_map(|a| a.strip_prefix("--optclass=").map(|s| s.to_string()));
-    let opts: Vec<Opts> = Opts::enumerate(2).into_iter().filter(|o| o.deviations() > 0).filter(|o| filt.as_ref().map(|f| o.name().contains(f.as_str())).unwrap_or(true)).collect();
+    let opts: Vec<Opts> = Opts::enumerate(ctx.pick(2, 3)).into_iter().filter(|o| o.deviations() > 0).filter(|o| !(o.comp == 1 && o.deviations() > 2)).filter(|o| filt.as_ref().map(|f| o.name().contains(f.as_str())).unwrap_or(true)).collect();
     // menus: (items, layouts) for cheap option points, for LZ4 alone, for LZ4 + one more deviation
     let items_cheap = single_items(&types, ctx.pick(2, 3));
     let lay_cheap: Vec<Layout> = if ctx.quick() { vec![Layout::Compact, Layout::Sliced(1, 1), Layout::Sliced(9, 0), Layout::Sliced(64, 1), Layout::ChildSliced, Layout::FirstOffset] } else { all_layouts(&[1]) };
@@ -893,7 +893,7 @@ fn flight_cfgs() -> Vec<FlightCfg> {
 fn run_flight(ctx: &Ctx) -> Stats {
     let full = !ctx.quick();
     let types = grid(full);
-    // columns: every column N<=2 (3 thorough) plus two longer cyclic ones (5 and 7 rows) so that splitting has remainders
+    // columns: every column N<=1 (3 thorough) plus two longer cyclic ones (3 and 7 rows; thorough 5 and 7) so that splitting has remainders
     let mut items = single_items(&types, ctx.pick(1, 3));
     for (ti, dt) in types.iter().enumerate() {
         for nullable in [true, false] {
@@ -905,7 +905,7 @@ fn run_flight(ctx: &Ctx) -> Stats {
             }
         }
     }
-    let layouts = if ctx.quick() { vec![Layout::Compact, Layout::Sliced(1, 1), Layout::Sliced(9, 0), Layout::Sliced(65, 1)] } else { all_layouts(&[1]) };
+    let layouts = if ctx.quick() { vec![Layout::Compact, Layout::Sliced(1, 1), Layout::Sliced(9, 0), Layout::Sliced(65, 1)] } else { vec![Layout::Compact, Layout::Sliced(1, 1), Layout::Sliced(3, 1), Layout::Sliced(9, 1), Layout::Sliced(64, 1), Layout::Sliced(65, 1), Layout::ChildSliced, Layout::Alt1] };
     let cfgs = flight_cfgs();
     // option points: default + every single deviation; crossed with the flight configs with <= 2 deviations overall
     let opts: Vec<Opts> = Opts::enumerate(1);
